@@ -289,14 +289,16 @@ Definition zsum (l : list Z) : Z := fold_right Z.add 0 l.
 Definition nano (x : f64) : Z := f_to_int (f_round (fmul x f_1e9)).
 
 (* usage = sum of the live workloads' resources, all four components; the per
-   core / per NUMA node comparison ranges over every key that occurs anywhere *)
-Definition usage_is_sum (usage : node_resource) (live : list wres) : bool :=
+   core / per NUMA node comparison ranges over every key that occurs anywhere.
+   [nanos] are the cpu amounts of the live workloads in 1e-9 units (computed
+   once per workload by the caller) *)
+Definition usage_is_sum (usage : node_resource) (live : list wres) (nanos : list Z) : bool :=
   let ks := keys (nr_cpumap usage) ++ flat_map (fun w => keys (wr_cpumap w)) live in
   let ns := keys (nr_numamem usage) ++ flat_map (fun w => keys (wr_numamem w)) live in
   forallb (fun k => lookup 0 (nr_cpumap usage) k =? zsum (map (fun w => lookup 0 (wr_cpumap w) k) live)) ks
   && forallb (fun k => lookup 0 (nr_numamem usage) k =? zsum (map (fun w => lookup 0 (wr_numamem w) k) live)) ns
   && (nr_mem usage =? zsum (map wr_mem_req live))
-  && (nano (nr_cpu usage) =? zsum (map (fun w => nano (wr_cpu_req w)) live)).
+  && (nano (nr_cpu usage) =? zsum nanos).
 
 Definition nr_usage_equiv (a b : node_resource) : bool :=
   let ks := keys (nr_cpumap a) ++ keys (nr_cpumap b) in
@@ -319,25 +321,37 @@ Definition is_rollback_of (live_before_p : list wres) (p o : op) : bool :=
   | _, _ => false
   end.
 
+(* the cached cpu amounts follow the live list *)
+Definition nanos_after (nanos : list Z) (o : op) (err : bool) : list Z :=
+  if err then nanos else
+  match o with
+  | OpAllocFail | OpReallocFail _ => nanos
+  | OpAlloc ws => nanos ++ map (fun w => nano (wr_cpu_req w)) ws
+  | OpRelease idxs => remove_idxs nanos idxs 0
+  | OpRealloc i _ new => replace_nth nanos i (nano (wr_cpu_req new))
+  | OpRollbackRealloc i origin => replace_nth nanos i (nano (wr_cpu_req origin))
+  end.
+
 (* prev = (usage before the previous operation, live before it, the previous
    operation) when the previous operation succeeded *)
-Fixpoint run_ok (usage : node_resource) (live : list wres)
+Fixpoint run_ok (usage : node_resource) (live : list wres) (nanos : list Z)
     (prev : option (node_resource * list wres * op)) (steps : list (op * obs)) : bool :=
   match steps with
   | [] => true
   | (o, ob) :: t =>
       let live' := live_after live o (o_err ob) in
+      let nanos' := nanos_after nanos o (o_err ob) in
       (* a failed operation leaves the usage untouched *)
       (if o_err ob then nr_usage_equiv (o_usage ob) usage else true)
       (* usage = sum of live resources, and the plugin itself reports no diffs *)
-      && usage_is_sum (o_usage ob) live'
+      && usage_is_sum (o_usage ob) live' nanos'
       && no_diffs (o_diffs ob)
-      (* rolling back the previous operation restores the usage exactly *)
+      (* rolling back the previous operation succeeds and restores the usage exactly *)
       && match prev with
-         | Some (u0, l0, p) => if is_rollback_of l0 p o && negb (o_err ob) then nr_usage_equiv (o_usage ob) u0 else true
+         | Some (u0, l0, p) => if is_rollback_of l0 p o then negb (o_err ob) && nr_usage_equiv (o_usage ob) u0 else true
          | None => true
          end
-      && run_ok (o_usage ob) live' (if o_err ob then None else Some (usage, live, o)) t
+      && run_ok (o_usage ob) live' nanos' (if o_err ob then None else Some (usage, live, o)) t
   end.
 
-Definition ok (c : case) : bool := run_ok (ni_usage (c_init c)) [] None (c_steps c).
+Definition ok (c : case) : bool := run_ok (ni_usage (c_init c)) [] [] None (c_steps c).
